@@ -1,12 +1,21 @@
 """C17 - rasterized input/target images show the problem and only the solution."""
 ID = "C17"
-LEVEL = "exploration"
-LEVEL_TEXT = 'PROVED (unbounded, z3): the two post-processing helpers pointwise for every image size - _remove_isolated_cells (a non-wall pixel whose four neighbours are wall or outside becomes wall, nothing else changes) and _extend_pixels (each pixel doubled, one-pixel wall frame, shape (2H+2, 2W+2, 3)). Bounded: input/target images recomputed independently from as_pixels for all 8 option combinations on solved mazes incl. percolation mazes with isolated cells; isolated-cell removal and pixel extension pointwise; item flags and batch order.'
-LEVEL_NOTE = 'Trusted: torch stacking; as_pixels is covered by C10.'
-TECHNIQUE = "contracts on the leaf functions discharged by z3 (pyvc) + bounded stand-in of the contract-based verifier: run-time checking of the real code against an independent executable statement over an enumerated scope (the proved leaf functions are listed in evidence; the composition is decided by the bounded stand-in)"
-CONTRACT_MODULES = ["contracts.raster"]
-PROVE = [("maze_dataset/maze/lattice_maze.py", "_remove_isolated_cells"), ("maze_dataset/dataset/rasterized.py", "_extend_pixels")]
-ASSUMPTIONS = []
+LEVEL = "proof"
+LEVEL_TEXT = (
+    "PROVED (unbounded, z3; every solved maze whose solution is a lattice walk from start to end, every grid size, all 8 option combinations): process_maze_rasterized_input_target. "
+    "With P the maze's own pixel image (as_pixels with endpoints and solution, itself proved under C10): the input image is P with the path pixels shown as open and everything else - "
+    "endpoints included - kept; the target image is open on the path pixels, wall where P is open or wall, and keeps START/END unless endpoints_as_open, which opens them; then the "
+    "optional post-processing is applied to BOTH images in the stated order: _remove_isolated_cells (a non-wall pixel whose four neighbours are wall or outside becomes wall, nothing else "
+    "changes) and then _extend_pixels (each pixel doubled in both directions inside a one-pixel wall frame) - both helpers proved pointwise for every image size against their real bodies. "
+    "NOT proved: batch stacking order (get_batch / torch.stack) and RasterizedMazeDataset.__getitem__ passing the three configuration flags - decided by the bounded stand-in: input/target "
+    "images recomputed independently from as_pixels for all 8 option combinations on solved mazes (incl. isolated cells, length-1 solutions), batches over enumerated index lists."
+)
+LEVEL_NOTE = "Trusted: pyvc encoding; torch.tensor(np.array([...])) keeps values and layout; boolean-mask assignment and np.pad / np.repeat library models."
+TECHNIQUE = "contract-based deductive verification of the image construction and both post-processing helpers (pointwise array obligations over the real AST, z3) + bounded run-time checking for batches and dataset-level indexing"
+CONTRACT_MODULES = ["contracts.pixels", "contracts.raster"]
+PROVE = [("maze_dataset/maze/lattice_maze.py", "_remove_isolated_cells"), ("maze_dataset/dataset/rasterized.py", "_extend_pixels"),
+         ("maze_dataset/maze/lattice_maze.py", "LatticeMaze.as_pixels"), ("maze_dataset/dataset/rasterized.py", "process_maze_rasterized_input_target")]
+ASSUMPTIONS = ["the solution of the solved maze is a lattice walk in the grid from its start to its end (what SolvedMaze construction and the generators guarantee; as_pixels asserts adjacency)"]
 EXPLANATION = "see DESIGN.md C17"
 
 
